@@ -72,15 +72,16 @@ for l in gout.splitlines():
 # axioms
 axioms = {}
 if not rc and obligations:
-    audit = "import JenVerif.Props.%s\n" % prop + "".join("#print axioms %s\n" % n for n in obligations)
+    audit = "import JenVerif.Props.%s\n" % prop + "".join("#print axioms %s.%s\n" % (prop, n) for n in obligations)
     ap = "%s/audit_%s.lean" % (BUILD, prop)
     open(ap, "w").write(audit)
     rca, aout = sh("lake env lean %s" % ap, cwd=LEAN, timeout=600)
     cur = None
     for m in re.finditer(r"'([^']+)' (does not depend on any axioms|depends on axioms: \[([^\]]*)\])", aout.replace("\n", " ")):
-        axioms[m.group(1)] = [a.strip() for a in (m.group(3) or "").split(",") if a.strip()]
+        axioms[m.group(1).split(".", 1)[-1]] = [a.strip() for a in (m.group(3) or "").split(",") if a.strip()]
     bad = {n: a for n, a in axioms.items() if set(a) - ALLOWED_AXIOMS}
-    if bad or grep_hits or rca:
+    missing = [n for n in obligations if n not in axioms]
+    if bad or grep_hits or rca or missing:
         machinery("proof audit failed: axioms=%s grep=%s\n%s" % (bad, grep_hits, aout[-2000:] if rca else ""))
 elif grep_hits:
     machinery("forbidden constructs: %s" % grep_hits)
